@@ -204,8 +204,14 @@ def malformed(ctx, corr):
             out = ("raised", type(ex).__name__, bool(is_user_exc(ex)))
         obs.append(("forbidden phase", where, out, before, snap(context)))
 
+    def init(context):
+        import rqalpha.api as api
+        # code scheduled for the before-trading slot is before-trading code wherever the scheduler runs it; init itself is a forbidden phase too
+        api.scheduler.run_daily(lambda c, b: phase_probe(c, "function scheduled with time_rule='before_trading'"), time_rule="before_trading")
+        phase_probe(context, "init")
+
     res, exc = runner.run_real(S, dict(accounts={"stock": 1e6, "future": 1e6}),
-                               {"init": lambda c: None, "before_trading": lambda c: phase_probe(c, "before_trading"),
+                               {"init": init, "before_trading": lambda c: phase_probe(c, "before_trading"),
                                 "handle_bar": lambda c, b: probe(c, "handle_bar"), "open_auction": lambda c, b: probe(c, "open_auction"),
                                 "after_trading": lambda c: phase_probe(c, "after_trading")})
     if exc is not None:
